@@ -164,11 +164,17 @@ def run(ctx):
         if known:
             ctx.report("C05:" + kind, "%s no longer checks: %s" % (kind, msg), dict(obligation=kind, detail=msg), found_input=False)
     if ctx.tier == "thorough" and proved:
-        rc, out = vlib.sh("timeout 2400 coqchk -silent -o -Q . PT PT.Props.C05", cwd=vlib.COQ, timeout=2500)
-        ctx.cov["coqchk"] = "ok" if rc == 0 else out[-400:]
-        if rc != 0:
-            ctx.report("C05:coqchk", "coqchk does not accept Props/C05.vo: %s" % out[-300:], dict(obligation="coqchk"),
-                       found_input=False)
+        # coqchk re-checks the generic proofs (Q and R layers); the kernel-evaluated sweeps over the 92 tables are
+        # vm_compute proofs that coqchk's evaluator would need hours for, so they are not re-checked here
+        rc, out = vlib.sh("timeout 1800 coqchk -silent -o -Q . PT PT.Proofs.C05Interp PT.Proofs.C05Real", cwd=vlib.COQ,
+                          timeout=1900)
+        flat = re.sub(r"\s+", " ", out)
+        ok = rc == 0 and "type-in-type: <none>" in flat and "unsafe (co)fixpoints: <none>" in flat
+        ctx.cov["coqchk"] = ("ok on Proofs/C05Interp (no axioms) and Proofs/C05Real (classical reals, functional "
+                             "extensionality); sweeps not re-checked by coqchk") if ok else out[-400:]
+        if not ok:
+            ctx.report("C05:coqchk", "coqchk does not accept Proofs/C05Interp.vo, Proofs/C05Real.vo: %s" % out[-300:],
+                       dict(obligation="coqchk"), found_input=False)
 
 
 def replay(path):
